@@ -7,6 +7,7 @@ import Driver.Stream
 import Driver.Tz
 import Driver.Daemon
 import Driver.Exec
+import Driver.Ical
 open Driver
 
 def step (line : String) : String :=
@@ -22,6 +23,7 @@ def step (line : String) : String :=
     else if op == "z.seq" then runTz args
     else if op == "d.hist" then runDaemon args
     else if op == "x.run" then runExec args
+    else if op == "p.lines" then runIcal args
     else "bad-op"
 
 partial def loop (h : IO.FS.Stream) (out : IO.FS.Stream) : IO Unit := do
